@@ -50,8 +50,9 @@ class C01(Check):
         design_ref="DESIGN.md §5 C01",
         note="partial on numerics: LU and IEEE rounding are not modelled; the only fact used of the solver is 'converged => max|row| < TOL'. "
         "That NewtonSolver.solve returns `converged` only for a model state with max|r| < TOL is not a trusted reading of solvers.py: it is the theorem newton_converged_implies_small_residual (Props/C16Newton.lean, over Model/Newton.lean, for every residual function, linear-solve behaviour and option set), tied to the source on every C16 run by the regenerated skeleton Gen/NewtonShape.lean, the replay of every observed solve call through Drivers/NewtonDriver.lean, and the re-evaluation of max|r| on the real model after each converged return; this check additionally re-evaluates max|r| on the real model after every converged return of its own runs. "
-        "store_results_in_network, expected_demand_param and Pattern/TimeSeries/Demands.at are hand transliterations tied by the "
-        "simulation oracle (reported demand vs the Lean expectedDemand, exact to 1e-12). INLET/OUTLET of arbitrary registries is the "
+        "store_results_in_network is tied by symbolic execution of the real function (Gen/StoreC01.lean, theorem gen_store_results_ok: junction / tank / "
+        "reservoir demand and leak demand, isolated junctions and links, tank-tank and reservoir-reservoir links); expected_demand_param and "
+        "Pattern/TimeSeries/Demands.at are hand transliterations tied by the simulation oracle (reported demand vs the Lean expectedDemand, exact to 1e-12). INLET/OUTLET of arbitrary registries is the "
         "C14 invariant; here adjacency is checked on the zoo (proof) and on random networks (oracle with adjacency from the spec). "
         "Tanks with a volume curve are generated (their reported demand is still the net inflow). Emitter coefficients are silently ignored by WNTRSimulator "
         "(no emitter flow is simulated or reported, the balance holds without it); GPV / PBV / D-W / C-M / pump speeds != 1 are refused (see C02). "
@@ -80,6 +81,7 @@ class C01(Check):
         wntr = vlib.import_wntr()
         self.info = T.write_c01(wntr)
         ctx.cov["updater_registrations"] = T.write_updater(wntr)
+        ctx.cov["store_results_trace"] = T.write_store(wntr)
         ctx.cov["zoo_rows"] = {k: v["rows"] for k, v in self.info.items()}
 
     # ------------------------------------------------------------------ static rows of random networks
